@@ -36,6 +36,7 @@ type SweepScope struct {
 type SweepBaseline struct {
 	Scope  string   `json:"scope"`
 	Proved []string `json:"proved"`
+	Wrap   []string `json:"wrap"` // range obligations that did not discharge: encoded with exact wrap-around from the start
 }
 
 func loadSweepScopes(verifDir string) []SweepScope {
@@ -91,9 +92,10 @@ func (v *Verifier) sweepFuncs(sc SweepScope) []*ssa.Function {
 }
 
 // genSweep generates the safety obligations of fn under an empty contract.
-func (v *Verifier) genSweep(fn *ssa.Function, props []string, mustWrap map[string]bool) *Exec {
+func (v *Verifier) genSweep(fn *ssa.Function, props []string, mustWrap map[string]bool, preWrap map[string]bool) *Exec {
 	x := newExec(v, funcPkgPath(fn), funcKey(fn), "")
 	x.mustWrap = mustWrap
+	x.preWrap = preWrap
 	x.textNames = true
 	x.maxInline = 3
 	st, params := x.initialState(fn, "")
@@ -115,6 +117,7 @@ func (v *Verifier) genSweep(fn *ssa.Function, props []string, mustWrap map[strin
 }
 
 type sweepResult struct {
+	Wrapped     map[string]bool
 	Scope       string
 	Funcs       int
 	Obligations int
@@ -124,10 +127,24 @@ type sweepResult struct {
 	Ranges      int
 }
 
-func (v *Verifier) runSweep(sc SweepScope, timeoutMS int) *sweepResult {
+func (v *Verifier) runSweep(sc SweepScope, timeoutMS int, base *SweepBaseline) *sweepResult {
+	var only, preWrap map[string]bool
+	if base != nil {
+		only = map[string]bool{}
+		for _, n := range base.Proved {
+			only[n] = true
+		}
+		preWrap = map[string]bool{}
+		for _, n := range base.Wrap {
+			preWrap[n] = true
+		}
+	}
 	t0 := time.Now()
+	v.maxPasses = 3
+	v.rangeMS = 400
+	defer func() { v.maxPasses, v.rangeMS = 0, 0 }()
 	fns := v.sweepFuncs(sc)
-	res := &sweepResult{Scope: sc.Name, Funcs: len(fns), Proved: map[string]bool{}, Failed: map[string]*Obligation{}}
+	res := &sweepResult{Scope: sc.Name, Funcs: len(fns), Proved: map[string]bool{}, Failed: map[string]*Obligation{}, Wrapped: map[string]bool{}}
 	var mu sync.Mutex
 	var wg sync.WaitGroup
 	sem := make(chan struct{}, 16)
@@ -144,8 +161,10 @@ func (v *Verifier) runSweep(sc SweepScope, timeoutMS int) *sweepResult {
 					_ = r
 				}
 			}()
-			x := v.stabilize(func(mw map[string]bool) *Exec { return v.genSweep(fn, sc.Props, mw) })
+			var wrappedNames []string
+			x := v.stabilizeNames(func(mw map[string]bool) *Exec { return v.genSweep(fn, sc.Props, mw, preWrap) }, &wrappedNames)
 			var obs []*Obligation
+			var skipped []*Obligation
 			nr := 0
 			for _, o := range x.obs {
 				if o.Kind == "range" {
@@ -153,12 +172,23 @@ func (v *Verifier) runSweep(sc SweepScope, timeoutMS int) *sweepResult {
 					continue
 				}
 				if o.Expect == "unsat" && o.Status == "" {
+					if only != nil && !only[o.Name] {
+						skipped = append(skipped, o)
+						continue
+					}
 					obs = append(obs, o)
 				}
 			}
 			solveBatch(obs, filepath.Join(v.vcDir, "sweep"), timeoutMS)
 			mu.Lock()
 			res.Ranges += nr
+			for _, n := range wrappedNames {
+				res.Wrapped[n] = true
+			}
+			for _, o := range skipped {
+				res.Obligations++
+				res.Failed[o.Name] = o // not claimed: listed as undischarged without an attempt
+			}
 			for _, o := range obs {
 				res.Obligations++
 				if o.Status == "proved" {
@@ -196,7 +226,7 @@ func cmdSweep(args []string) {
 		if *only != "" && sc.Name != *only {
 			continue
 		}
-		res := v.runSweep(sc, 3000)
+		res := v.runSweep(sc, 3000, nil)
 		fmt.Printf("scope %s: %d functions, %d safety obligations, %d discharged, %d range, %.1fs\n", sc.Name, res.Funcs, res.Obligations, len(res.Proved), res.Ranges, res.Secs)
 		if *showFailed {
 			var ks []string
@@ -215,7 +245,12 @@ func cmdSweep(args []string) {
 			}
 			sort.Strings(ks)
 			os.MkdirAll(filepath.Join(*verifDir, "baseline"), 0o755)
-			b, _ := json.MarshalIndent(SweepBaseline{Scope: sc.Name, Proved: ks}, "", " ")
+			var ws []string
+			for k := range res.Wrapped {
+				ws = append(ws, k)
+			}
+			sort.Strings(ws)
+			b, _ := json.MarshalIndent(SweepBaseline{Scope: sc.Name, Proved: ks, Wrap: ws}, "", " ")
 			os.WriteFile(baselinePath(*verifDir, sc.Name), b, 0o644)
 		}
 	}
@@ -238,7 +273,7 @@ func (v *Verifier) sweepCheck(verifDir, prop string, replayDir string) (map[stri
 			continue
 		}
 		json.Unmarshal(b, &base)
-		res := v.runSweep(sc, 5000)
+		res := v.runSweep(sc, 5000, &base)
 		missing := 0
 		for _, name := range base.Proved {
 			total++
